@@ -20,6 +20,7 @@ Stage(e) == IF e \in {"cbPendingOut", "cbPendingIn"} THEN "pend" ELSE "est"
 K(b) == CASE b = "b1" -> 1 [] b = "b2" -> 2 [] OTHER -> 3
 Payload(r) == [k \in DOMAIN r \ {"b"} |-> r[k]]
 SeqToSet(s) == {s[i] : i \in 1..Len(s)}
+Sum3(ls) == IF Len(ls) = 3 THEN Len(ls[1]) + Len(ls[2]) + Len(ls[3]) ELSE 0
 Init == l = 1 /\ InitReg /\ tri = NoTri /\ round = NoRound /\ expect = [i \in Ids |-> "none"] /\ estAsked = [i \in Ids |-> FALSE]
 Reset == R.e = "reset" /\ tri' = NoTri /\ round' = NoRound /\ expect' = [i \in Ids |-> "none"] /\ estAsked' = [i \in Ids |-> FALSE]
 
@@ -51,9 +52,13 @@ Others ==
   /\ (R.e = "dial" /\ R.res = "ok") =>
         LET want == (SeqToSet(R.addrs) \cup (IF R.extend THEN UNION {SeqToSet(R.beh_addrs[i]) : i \in 1..Len(R.beh_addrs)} ELSE {})) \ {100} IN
         SeqToSet(R.dialed_abs) = want /\ Len(R.dialed_abs) = Cardinality(want)
+  /\ (R.e = "hpoc") =>    \* direct call of handle_pending_outbound_connection: denied iff a field denied, else the concatenation of all fields' lists
+        /\ R.denied = (expect[R.id] = "deny")
+        /\ (~R.denied => (SeqToSet(R.ret) = UNION {SeqToSet(R.beh_addrs[i]) : i \in 1..Len(R.beh_addrs)}
+                          /\ Len(R.ret) = Sum3(R.beh_addrs)))
   /\ (R.e = "cbHandlerEvent" /\ Has(R.ev, "from")) => R.ev.from = R.b                  \* routed back to the producing field
   /\ (R.e = "hEvent" /\ Has(R.ev, "to")) => R.ev.to = R.b                              \* a field's notification reaches its own handler
-  /\ expect' = IF R.e = "dialRet" \/ (R.e = "swarmEvent" /\ R.kind = "incoming") THEN [expect EXCEPT ![R.id] = "none"] ELSE expect
+  /\ expect' = IF R.e = "dialRet" \/ R.e = "hpoc" \/ (R.e = "swarmEvent" /\ R.kind = "incoming") THEN [expect EXCEPT ![R.id] = "none"] ELSE expect
   /\ UNCHANGED <<tri, round, estAsked>>
 Next == l <= NRec /\ l' = l + 1 /\ (Reset \/ Forward \/ Decision \/ Others)
 Progress == Mark(l)
